@@ -567,6 +567,22 @@ func TestCheck(t *testing.T) {
 			Layer string `json:"layer"`
 		}
 		r.DecodeReplay(&probe)
+		var fam struct {
+			Family string `json:"family"`
+		}
+		r.DecodeReplay(&fam)
+		if fam.Family == "same-address" {
+			var sc SameAddrCase
+			r.DecodeReplay(&sc)
+			k, d := executeSameAddr(t, sc)
+			r.Eval(1)
+			r.Transition(8)
+			r.State(1)
+			if k != "" {
+				r.Fail(k, fmt.Sprintf("%s: %s", sc, d), 10, sc)
+			}
+			return
+		}
 		if probe.Layer == "T" {
 			var c CaseT
 			r.DecodeReplay(&c)
@@ -693,6 +709,19 @@ func TestCheck(t *testing.T) {
 		r.Note(fmt.Sprintf("max_bfs_k%d_states_in_a_shard", k), len(seen))
 	}
 	r.Note("sum_executions", execs)
+	// same-address histories (scripted): the shard that owns the BFS root runs them
+	if r.Shard == 0 {
+		for _, sc := range sameAddrCases() {
+			k, d := executeSameAddr(t, sc)
+			r.Eval(1)
+			r.Transition(8)
+			r.State(mc.Hash("same-address", sc.String(), k))
+			r.Nontrivial(mc.Hash(sc.String()))
+			if k != "" {
+				r.Fail(k, fmt.Sprintf("%s: %s", sc, d), 10, sc)
+			}
+		}
+	}
 	// Layer T: thread interleavings of concurrent sessions (Engine T)
 	if !capped && !r.OverBudget() {
 		bound := 1
